@@ -89,6 +89,49 @@ def _misc_shard(shard, n, tier, seed):
     w.close()
     return rep
 
+def sanitizer_layer(chk, cov):
+    """Thorough tier: the string grid (3 symbols) and the unsafe-slice workload under AddressSanitizer, the unsafe-slice
+    workload under Miri. A sanitizer report is a violation; a build failure or timeout is inconclusive."""
+    from kv import sanitize
+    st = {}
+    ok, log = sanitize.build_asan()
+    if not ok:
+        chk.inconclusive.append("the AddressSanitizer build failed (sanitizer part skipped): " + log[-200:].replace("\n", " "))
+    else:
+        ran = 0
+        for shard in range(4):
+            out, report = sanitize.run_asan(["strings", 3, shard, 4])
+            if report:
+                chk.violation("asan:%s" % sha(report[:400]), "AddressSanitizer report in the string grid: " + report[:300], {"report": report})
+            elif out is None:
+                chk.inconclusive.append("an ASan string-grid shard did not complete")
+            else:
+                ran += out.get("evaluations", 0)
+                for f in out.get("faults", []):
+                    chk.violation("str-asan:%s:%s:%s" % (f.get("rule"), f.get("op", ""), f.get("input")), "string grid under ASan: %s" % json.dumps(f)[:200], f)
+        out, report = sanitize.run_asan(["unsafe-slice", 4])
+        if report:
+            chk.violation("asan:%s" % sha(report[:400]), "AddressSanitizer report in the unsafe-slice workload: " + report[:300], {"report": report})
+        elif out is None:
+            chk.inconclusive.append("the ASan unsafe-slice run did not complete")
+        else:
+            ran += out["ops"]
+            for f in out["faults"]:
+                chk.violation("unsafe-slice:%s" % sha(f), "unsafe-slice workload under ASan: " + f[:200], {"fault": f})
+        st["asan_operations"] = ran
+        cov["evaluations"] += ran
+    out, ub, note = sanitize.run_miri(["unsafe-slice", 1])
+    if ub:
+        chk.violation("miri:%s" % sha(ub[:400]), "Miri reports undefined behaviour in the unsafe-slice workload: " + ub[:300], {"report": ub})
+    elif out is None:
+        chk.inconclusive.append("the Miri unsafe-slice run did not complete: " + note[:200])
+    else:
+        st["miri_operations"] = out["ops"]
+        cov["evaluations"] += out["ops"]
+        for f in out["faults"]:
+            chk.violation("unsafe-slice:%s" % sha(f), "unsafe-slice workload under Miri: " + f[:200], {"fault": f})
+    cov["streams"]["sanitizers"] = st
+
 def run(tier, seed):
     chk = Check(PID, tier, seed)
     if not chk.build():
@@ -138,6 +181,8 @@ def run(tier, seed):
         cov["distinct_nontrivial"] += s["distinct"]
     cov["streams"]["escapes-and-number-round-trips"] = mst
     cov["evaluations"] += mst["evaluations"]
+    if not quick:
+        sanitizer_layer(chk, cov)
     cov["rule"] = ("string grid (complete): all strings of <= %d symbols over {a, é, €, 😀, U+0301, space, LF, CRLF, comma} x 3 representations (fresh host value, sub-slice of a "
                    "concatenation, slice of a slice) x every operation of the batch: size, s[i], s[i..j], s[i..=j], s[..j], s[..=j], s[i..] for all i, j in [-1, len+1], chars, "
                    "char_indices, bytes, from_bytes, lines, for-loop, unpacking, trim / trim_start / trim_end (+19 patterns), split / contains / starts_with / ends_with / "
